@@ -104,4 +104,34 @@ example : let r : Req := { static := 64, gx := 1, gy := 1, gz := 1, wx := 1, wy 
     r.static + dynSum r.fields < W ∧ r.fields[0]? = some (.localPtr 4096) ∧ r.fields[2]? = some (.localPtr 260) := by
   decide
 
+/-! ### hypotheses -/
+
+/-- **The hypothesis `static < 2^32` of `kernarg_layout` is a typing fact, not a restriction.**
+`co.GroupSegmentByteSize` is a Go `uint32`; the model reduces the request's value modulo 2^32 before
+anything else, so every request behaves as the request with the reduced value — for which `kernarg_layout`
+applies without hypothesis. -/
+theorem kernarg_layout_any_static (r : Req) :
+    marshal r = marshal { r with static := r.static % W } ∧ ({ r with static := r.static % W } : Req).static < W := by
+  constructor
+  · show (_, _) = (_, _)
+    simp only [Nat.mod_mod]
+  · exact Nat.mod_lt _ (by decide)
+
+/-- the full statement of `group_segment_exact` without the no-overflow hypothesis -/
+def group_segment_exact_full : Prop := ∀ r : Req, (marshal r).1.groupSegmentSize = r.static + dynSum r.fields
+
+/-- **refuted**: the hypothesis cannot be dropped — the running LDS size is a `uint32` and wraps.  Two dynamic
+regions of 2^32 − 1 and 2 bytes give `GroupSegmentSize = 1`, and the second region starts at offset 2^32 − 1.
+(The real driver does the same: the correspondence cases of harness/c01_kernarg.go include overflowing
+`LocalPtr` sizes on every run, diffs = 0.) -/
+theorem group_segment_exact_refuted : ¬ group_segment_exact_full := by
+  intro h
+  have := h { static := 0, gx := 1, gy := 1, gz := 1, wx := 1, wy := 1, wz := 1, co := 0, ka := 0,
+              fields := [.localPtr 4294967295, .localPtr 2] }
+  revert this
+  decide
+
+example : (marshal { static := 0, gx := 1, gy := 1, gz := 1, wx := 1, wy := 1, wz := 1, co := 0, ka := 0,
+                     fields := [.localPtr 4294967295, .localPtr 2] }).1.groupSegmentSize = 1 := by decide
+
 end C01
